@@ -1,5 +1,6 @@
 """C43 — IRC message splitting and CTCP/low-level quoting: real IRCClient.msg/notice, split, lowQuote/lowDequote,
-ctcpQuote/ctcpDequote vs the Lean model, plus the property oracle on what the real client wrote."""
+ctcpQuote/ctcpDequote, ctcpStringify/ctcpExtract, ctcpMakeQuery/ctcpMakeReply → a receiving IRCClient, vs the Lean model,
+plus the property oracle on what the real client wrote and what the real peer was handed."""
 import functools
 import json
 import textwrap
@@ -12,10 +13,28 @@ RULE = ("messages assembled from ASCII words, long words, hyphenated words, runs
         "whitespace, 2/3/4-octet code points, NUL and M-QUOTE (which low-level quoting doubles); targets ASCII and "
         "non-ASCII; limits around len(fmt)+2 (refusal boundary), small, mid, 512 and None (computed default); "
         "plus direct split(), quote/dequote texts over the quoting alphabets, UTF-8 and isspace sweeps; "
-        "distinct = (op, kind, character classes present, limit class, #lines class, raised?)")
+        "CTCP framing (31% of cases): lists of (tag, data) with data None / '' / str / list of str, the data texts beginning with, "
+        "ending in, or made only of every kind of whitespace (space, double space, tab, CR/LF/VT/FF, U+001C-1F, NBSP and every other "
+        "str.isspace character), containing X-DELIM / X-QUOTE / 'a' / M-QUOTE / NUL / ' :', tags with X-DELIM / X-QUOTE / non-ASCII "
+        "(and a few invalid: empty, containing the space) — through ctcpStringify→ctcpExtract (strex), interleaved with normal text "
+        "(mixed), arbitrary texts into ctcpExtract (extract), a line delivered to a real receiving client (recv), and "
+        "ctcpMakeQuery/ctcpMakeReply on one client delivered to another (e2e, incl. texts msg() rewrites or splits); "
+        "distinct = (op, kind, character classes present, limit class, #lines class, raised?) resp. "
+        "(op, #messages, data kinds, leading/trailing/only-whitespace class, escapes present, character classes, tag validity, calls)")
 ASSUMES = [
+    "CTCP framing: a tag is a non-empty str without U+0020 (the one separator); data that is None, '' or [] is the message "
+    "`X-DELIM tag X-DELIM` and comes back as None; every other data text comes back character for character",
+    "client → client: the round trip is proved (ctcp_query_client_to_client / ctcp_reply_client_to_client) for CTCP texts without "
+    "tab/LF/VT/FF/CR that fit the line in octets, for every wrap with textwrap's whole-line behaviour (WrapWhole: a fitting line "
+    "without those characters, not ending in whitespace, is returned as the single line — checked by the driver on every observed "
+    "textwrap.wrap call); the oracle claims it whenever the written line carries the text whole. When msg() splits or rewrites "
+    "whitespace (which the statement's first clause allows: newlines split, tabs expand, a text longer than the line is cut, so the "
+    "CTCP framing does not survive) what the peer is handed is compared with the model only",
+    "the receiving client is observed at ctcpQuery / ctcpReply / privmsg / noticed (overridden to record); LineReceiver framing, "
+    "UTF-8 decoding, lowDequote and parsemsg of a well-formed ':prefix PRIVMSG target :text' line run for real and are tied, not "
+    "modelled beyond receiver_recovers (decode + lowDequote give back the line)",
     "textwrap.wrap (stdlib) is a parameter of the model: every theorem holds for any wrap meeting WrapContract (lines <= width "
-    "characters; only whitespace differs); on every run the answers the real textwrap.wrap gave to the calls the real code made "
+    "characters; only whitespace differs) — the client → client theorems for any wrap meeting WrapWhole; on every run the answers the real textwrap.wrap gave to the calls the real code made "
     "are checked against that contract (driver) and fed to the model as the parameter",
     "message, target and command are str made of Unicode scalar values (a lone surrogate makes str.encode raise)",
     "IRCClient.lineRate is None (default): sendLine writes immediately, one transport.write per line",
@@ -32,7 +51,8 @@ MANIFEST = {
             "for all texts. Model tied to irc.py by differential runs of the real client on a recording transport.",
     "note": "trusts Lean kernel, the hand-written model (differentially tied on every run), textwrap.wrap's contract "
             "(checked on every observed call), CPython's UTF-8 codec",
-    "technique": "Lean 4 proof (per-character form of the sequential replaces, induction over chunks) + differential tie",
+    "technique": "Lean 4 proof (per-character form of the sequential replaces, induction over chunks; str.split(X_DELIM) of "
+                 "delimiter-free pieces, cut at the first single space) + differential tie",
     "design_ref": "DESIGN.md §7 C43",
 }
 
@@ -41,8 +61,71 @@ def enc(t):
     return ",".join(str(ord(c)) for c in t) if t else "-"
 
 
+def enc_msgs(msgs):
+    """<msgs> of the driver protocol: data None / str / list of str"""
+    out = []
+    for tg, d in msgs:
+        if d is None:
+            out.append(f"{enc(tg)}/n")
+        elif isinstance(d, str):
+            out.append(f"{enc(tg)}/t/{enc(d)}")
+        else:
+            out.append(f"{enc(tg)}/l/" + (":".join(enc(x) for x in d) if d else "~"))
+    return ";".join(out) if out else "~"
+
+
+def show_ext(ext):
+    return ";".join(f"{enc(tg)}/" + ("N" if d is None else "T" + enc(d)) for tg, d in ext) if ext else "~"
+
+
+def show_extract(r):
+    return show_ext(r["extended"]) + "|" + (";".join(enc(x) for x in r["normal"]) if r["normal"] else "~")
+
+
+def _msgs(c):
+    return [(m[0], m[1] if m[1] is None or isinstance(m[1], str) else list(m[1])) for m in c["msgs"]]
+
+
+def _mixed_text(c):
+    ns, ms = c["normals"], _msgs(c)
+    t = ns[0]
+    for m, n in zip(ms, ns[1:]):
+        t += irc.ctcpStringify([m]) + n
+    return t
+
+
 # ------------------------------------------------------------------------------------------
 # running the real code
+
+class _Peer(irc.IRCClient):
+    """the receiving client: records which of ctcpQuery / ctcpReply / privmsg / noticed the real irc_PRIVMSG / irc_NOTICE
+    call, with what (the per-tag dispatch inside ctcpQuery / ctcpReply is not part of the property)"""
+    nickname = "bob"
+    performLogin = False
+
+    def __init__(self):
+        self.events = []
+
+    def ctcpQuery(self, user, channel, messages):
+        self.events.append("Q:" + show_ext(list(messages)))
+
+    def ctcpReply(self, user, channel, messages):
+        self.events.append("R:" + show_ext(list(messages)))
+
+    def privmsg(self, user, channel, message):
+        self.events.append("P:" + enc(message))
+
+    def noticed(self, user, channel, message):
+        self.events.append("N:" + enc(message))
+
+
+def _deliver(data):
+    """feed octets (complete lines) to a fresh receiving client through the real dataReceived"""
+    peer = _Peer()
+    peer.makeConnection(StringTransport())
+    peer.dataReceived(data)
+    return "+".join(peer.events) if peer.events else "~"
+
 
 class _Recorder:
     """records the calls made to textwrap.wrap while the real code runs (the stdlib parameter)"""
@@ -98,6 +181,17 @@ def _trace_key(key):
             if c["op"] == "split":
                 out = irc.split(c["text"], c["length"])
                 out = ";".join(enc(x) for x in out) if out else "~"
+            elif c["op"] == "e2e":
+                client = irc.IRCClient()
+                tr = _Transport()
+                client.makeConnection(tr)
+                tr.writes.clear()
+                make = client.ctcpMakeQuery if c["kind"] == "q" else client.ctcpMakeReply
+                try:
+                    make(c["user"], _msgs(c))
+                    out = _show_lines(tr.writes) + "|" + _deliver(b"".join(b":alice!a@example.org " + w for w in tr.writes))
+                except ValueError:
+                    out = "!raised ValueError" if not tr.writes else "!raised ValueError after " + _show_lines(tr.writes)
             else:
                 client = irc.IRCClient()
                 tr = _Transport()
@@ -128,6 +222,16 @@ def model_line(c):
         return f"octets {enc(c['text'])} {c['maximum']}" if hasattr(irc, "_splitOctets") else None
     if op == "split":
         return f"split {enc(c['text'])} {c['length']} {_trace(c)[1]}"
+    if op == "strex":
+        return f"strex {enc_msgs(_msgs(c))}"
+    if op == "mixed":
+        return f"mixed {enc_msgs(_msgs(c))} {';'.join(enc(n) for n in c['normals'])}"
+    if op == "extract":
+        return f"extract {enc(c['t'])}"
+    if op == "recv":
+        return f"recv {c['kind']} {enc(c['t'])}"
+    if op == "e2e":
+        return f"e2e {c['kind']} {enc(c['user'])} {enc_msgs(_msgs(c))} 9 {_trace(c)[1]}"
     mt = "PRIVMSG" if c["kind"] == "msg" else "NOTICE"
     ln = "none" if c["length"] is None else str(c["length"])
     return f"send {enc(mt)} {enc(c['user'])} {enc(c['message'])} {ln} 9 {_trace(c)[1]}"
@@ -150,6 +254,18 @@ def run_impl(c):
         return (b.hex() or "-") + "|" + enc(b.decode("utf-8"))
     if op == "isspace":
         return ",".join(str(n) for n in range(c["lo"], c["hi"]) if chr(n).isspace()) or "-"
+    if op == "strex":
+        w = irc.ctcpStringify(_msgs(c))
+        return enc(w) + "|" + show_extract(irc.ctcpExtract(w))
+    if op == "mixed":
+        w = _mixed_text(c)
+        return enc(w) + "|" + show_extract(irc.ctcpExtract(w))
+    if op == "extract":
+        return show_extract(irc.ctcpExtract(c["t"]))
+    if op == "recv":
+        cmd = "PRIVMSG" if c["kind"] == "p" else "NOTICE"
+        line = f":alice!a@example.org {cmd} bob :" + _ref_low_quote(c["t"])
+        return _deliver(line.encode("utf-8") + b"\r\n")
     if op == "octets":
         if not hasattr(irc, "_splitOctets"):
             return "absent"
@@ -223,8 +339,19 @@ def oracle(c, out):
         if any(len(irc.lowQuote(p).encode("utf-8")) > c["maximum"] for p in pieces):
             return {"key": "octets-too-long", "detail": f"_splitOctets({c['text']!r}, {c['maximum']}) gave {pieces!r}"}
         return None
+    if op in ("strex", "mixed"):
+        return _oracle_extract(c, out)
+    if op == "recv":
+        return _oracle_recv(c, out)
+    if op == "e2e":
+        return _oracle_e2e(c, out)
     if op != "send":
         return None
+    return _send_check(c, out, [])
+
+
+def _send_check(c, out, parts):
+    """the clauses about written lines; `parts` receives the message parts read back from the lines"""
     mt = "PRIVMSG" if c["kind"] == "msg" else "NOTICE"
     fmt = f"{mt} {c['user']} :"
     limit = c["length"]
@@ -245,7 +372,6 @@ def oracle(c, out):
     if out.startswith("!"):
         return {"key": "raised-other", "detail": f"{what} → {out}"}
     lines = [bytes.fromhex(h) if h != "-" else b"" for h in out.split(";")] if out != "~" else []
-    parts = []
     for ln in lines:
         if len(ln) > limit:
             k = "line-exceeds-limit-multibyte" if any(b >= 0x80 for b in ln) else "line-exceeds-limit-quoted" if b"\x10" in ln else "line-exceeds-limit"
@@ -267,6 +393,153 @@ def oracle(c, out):
     return None
 
 
+
+
+# --- CTCP framing: reference (property-level) forms, independent of irc.py and of the Lean model
+
+def _ref_ctcp_quote(s):
+    return "".join("\\\\" if ch == "\\" else "\\a" if ch == "\x01" else ch for ch in s)
+
+
+def _ref_low_quote(s):
+    return "".join({"\x10": "\x10\x10", "\x00": "\x100", "\n": "\x10n", "\r": "\x10r"}.get(ch, ch) for ch in s)
+
+
+def _expected(msgs):
+    """what must come back: the tag and the data TEXT, character for character.  Absent data and an empty text carry the
+    same (no) characters: None and "" are not told apart (irc.py sends both as `X_DELIM tag X_DELIM` and hands back None;
+    the exact choice is pinned by the tie with the model, not demanded by the statement)."""
+    return [(tg, d or None) for tg, d in _texts(msgs)]
+
+
+def _texts(msgs):
+    """(tag, text put after the separating space, or None when the data is falsy and there is no separator)"""
+    return [(tg, None if not d else d if isinstance(d, str) else " ".join(d)) for tg, d in msgs]
+
+
+def _norm_ext(text):
+    """an <extended> observable with empty data read as absent data"""
+    return ";".join(e[:-2] + "N" if e.endswith("/T-") else e for e in text.split(";"))
+
+
+def _ref_stringify(msgs):
+    return "".join("\x01" + _ref_ctcp_quote(tg if d is None else tg + " " + d) + "\x01" for tg, d in _texts(msgs))
+
+
+def _valid_tags(msgs):
+    """a tag is a non-empty word without the space that separates it from its data"""
+    return all(isinstance(tg, str) and tg != "" and " " not in tg for tg, _ in msgs)
+
+
+def _lead(msgs):
+    """which kind of whitespace the data texts begin with (the class the single-space cut is sensitive to)"""
+    k = ""
+    for _, d in _expected(msgs):
+        if d:
+            if d.isspace():
+                k += "o"
+            if d[0] == " ":
+                k += "s"
+            elif d[0] == "\t":
+                k += "t"
+            elif d[0].isspace():
+                k += "u" if ord(d[0]) > 127 else "c"
+            if d[-1].isspace():
+                k += "e"
+    return "".join(sorted(set(k))) or "0"
+
+
+def _parse_ext(text):
+    if text == "~":
+        return []
+    out = []
+    for e in text.split(";"):
+        tg, d = e.split("/")
+        dec = lambda x: "" if x == "-" else "".join(chr(int(n)) for n in x.split(","))
+        out.append((dec(tg), None if d == "N" else dec(d[1:])))
+    return out
+
+
+def _fail_class(msgs, got_ext):
+    """stable class of a round-trip failure: the kind of data text of the first message that did not come back"""
+    want = _expected(msgs)
+    try:
+        got = _parse_ext(got_ext)
+    except ValueError:
+        return "garbled"
+    for i, w in enumerate(want):
+        if i >= len(got) or (got[i][0], got[i][1] or None) != w:
+            d = w[1]
+            if not d:
+                return "no-data"
+            if d.isspace():
+                return "only-whitespace"
+            if d[0] == " ":
+                return "lead-space"
+            if d[0].isspace():
+                return "lead-whitespace"
+            return "trail-whitespace" if d[-1].isspace() else "inner-space" if " " in d else "text"
+    return "extra-messages"
+
+
+def _oracle_extract(c, out):
+    msgs = _msgs(c)
+    normals = c.get("normals")
+    if out.startswith("!"):
+        return {"key": "ctcp-raised", "detail": f"{c!r} → {out}"}
+    if not _valid_tags(msgs) or (normals and any("\x01" in n for n in normals)):
+        return None
+    wire, ext, normal = out.split("|")
+    what = (f"ctcpExtract(ctcpStringify({msgs!r}))" if normals is None
+            else f"ctcpExtract of {normals!r} interleaved with ctcpStringify of {msgs!r}")
+    if _norm_ext(ext) != show_ext(_expected(msgs)):
+        return {"key": "ctcp-roundtrip-" + _fail_class(msgs, ext),
+                "detail": f"{what}: extended = {ext}, expected {show_ext(_expected(msgs))} (text {wire})"}
+    keep = [n for n in (normals or []) if n]
+    if normal != (";".join(enc(n) for n in keep) if keep else "~"):
+        return {"key": "ctcp-roundtrip-normal", "detail": f"{what}: normal = {normal}"}
+    if normals is None and (wire.split(",").count("1") if wire != "-" else 0) != 2 * len(msgs):
+        return {"key": "ctcp-stringify-delims",
+                "detail": f"ctcpStringify({msgs!r}) = {wire}: X-DELIM must occur exactly as the {2 * len(msgs)} delimiters"}
+    return None
+
+
+def _oracle_recv(c, out):
+    if "msgs" not in c:
+        return None
+    msgs = _msgs(c)
+    if not msgs or not _valid_tags(msgs) or c["t"] != _ref_stringify(msgs):
+        return None
+    want = ("Q:" if c["kind"] == "p" else "R:") + show_ext(_expected(msgs))
+    if _norm_ext(out) != want:
+        return {"key": "ctcp-receive-" + (_fail_class(msgs, out[2:]) if out[:2] in ("Q:", "R:") and "+" not in out else "calls"),
+                "detail": f"client receiving the CTCP text of {msgs!r} ({c['kind']}): calls {out}, expected {want}"}
+    return None
+
+
+def _oracle_e2e(c, out):
+    msgs = _msgs(c)
+    kind = "msg" if c["kind"] == "q" else "notice"
+    text = _ref_stringify(msgs) if _valid_tags(msgs) else irc.ctcpStringify(msgs)
+    lines = out if out.startswith("!") else out.split("|")[0]
+    parts = []
+    bad = _send_check({"op": "send", "kind": kind, "user": c["user"], "message": text, "length": None}, lines, parts)
+    if bad is not None:
+        return dict(bad, key="e2e-" + bad["key"])
+    if out.startswith("!") or not msgs or not _valid_tags(msgs):
+        return None
+    # the round trip is claimed when the text reached the wire whole (msg()/notice() may split a long text and rewrite
+    # whitespace, which the first clause of the statement allows; what the peer makes of such lines is left to the tie)
+    if parts == [text]:
+        want = ("Q:" if c["kind"] == "q" else "R:") + show_ext(_expected(msgs))
+        got = out.split("|")[1]
+        if _norm_ext(got) != want:
+            return {"key": "ctcp-end-to-end-" + (_fail_class(msgs, got[2:]) if got[:2] in ("Q:", "R:") and "+" not in got else "calls"),
+                    "detail": f"ctcpMake{'Query' if c['kind'] == 'q' else 'Reply'}({c['user']!r}, {msgs!r}) wrote {parts!r}; "
+                              f"the peer's calls: {got}, expected {want}"}
+    return None
+
+
 # ------------------------------------------------------------------------------------------
 # cases
 
@@ -277,6 +550,79 @@ BLANKS = [" ", " ", " ", "  ", "\t", "\n", "\n", "\r", "\r\n", "\x0b", "\x0c", "
 USERS = ["foo", "#chan", "nick", "&local", "#ünï", "#日本", "a", "n\x10k", "n\rk\n"]
 QALPHA_LOW = ["\x10", "\x00", "\n", "\r", "0", "n", "r", "a", "\\", "\x01", "é", "\U0001F600", " "]
 QALPHA_CTCP = ["\\", "\x01", "a", "\\", "\x10", "n", "é", " ", "\U0001F600", "\n"]
+
+
+# CTCP framing cases.  The cut between tag and data is ONE space, so the data texts must begin (and end, and consist) of
+# every kind of whitespace; X-DELIM / X-QUOTE / the letter `a` exercise the quoting inside the framing.
+WS_ALL = [chr(n) for n in range(0x3001) if chr(n).isspace()]          # every str.isspace character
+WS_WIRE_SAFE = [" ", "  ", "\xa0", "\u3000", "\u2003", "\x85", "\x1c", "\x1f", "\u2028", " \xa0 "]   # msg() leaves these alone
+WS_REWRITTEN = ["\t", "\n", "\r", "\x0b", "\x0c", " \t", "\r\n"]                                      # msg() rewrites / splits at these
+TAGS = ["ACTION", "ACTION", "ACTION", "PING", "VERSION", "DCC", "X", "a", "\\", "\\a", "T\x01G", "\x01", "ä", "日本", "CLIENT:INFO",
+        "T\tG", "T\xa0G", ":x"]
+BAD_TAGS = ["", "A B", " A", "A "]
+DATA_ATOMS = ["waves", "at", "everybody", "12345", "a", "\\", "\\a", "\\\\", "\x01", "\x01\x01", "\\\x01", "é", "日本語", "\U0001F600", "\x10",
+              "\x00", "\x10n", ":", " :", "CHAT chat 2130706433 5000", "x" * 40, "-"]
+SEPS = [" ", " ", " ", "  ", "\xa0", "\t", "", "\u3000", "\n"]
+NORMALS = ["", "", "hello", "hello world", " ", "  lead", "trail ", "\\a", "back\\slash", "é 日本", "\t", "a\nb", ":"]
+E2E_USERS = ["bob", "bob", "#chan", "#ünï", "&local"]
+
+
+def _data_text(rng, safe=False):
+    lead_pool = WS_WIRE_SAFE if safe else WS_WIRE_SAFE + WS_REWRITTEN + WS_ALL
+    r = rng.random()
+    if r < 0.10:                                  # whitespace only
+        return "".join(rng.choice(lead_pool) for _ in range(rng.randint(1, 3)))
+    t = ""
+    if rng.random() < 0.55:                       # leading whitespace (the blind spot of the seeded change C43-2)
+        t += rng.choice(lead_pool)
+    seps = [x for x in SEPS if x not in "\t\n"] if safe else SEPS
+    for i in range(rng.choice([1, 1, 2, 3, 5])):
+        if i:
+            t += rng.choice(seps)
+        t += rng.choice(DATA_ATOMS)
+    if rng.random() < 0.25:
+        t += rng.choice(lead_pool)
+    return t
+
+
+def _data(rng, safe=False):
+    r = rng.random()
+    if r < 0.07:
+        return None
+    if r < 0.11:
+        return ""
+    if r < 0.19:
+        return [rng.choice(["", " ", "a", "b c", "\\", "\x01", " lead", "\xa0"]) for _ in range(rng.choice([0, 1, 1, 2, 3]))]
+    return _data_text(rng, safe)
+
+
+def _ctcp_msgs(rng, safe=False, atleast=0):
+    n = max(atleast, rng.choice([0, 1, 1, 1, 1, 2, 2, 3]))
+    return [[rng.choice(BAD_TAGS) if rng.random() < 0.04 else rng.choice(TAGS), _data(rng, safe)] for _ in range(n)]
+
+
+def _ctcp_case(rng):
+    r = rng.random()
+    if r < 0.42:
+        return {"op": "strex", "msgs": _ctcp_msgs(rng)}
+    if r < 0.52:
+        ms = _ctcp_msgs(rng)
+        return {"op": "mixed", "msgs": ms, "normals": [rng.choice(NORMALS) for _ in range(len(ms) + 1)]}
+    if r < 0.62:
+        alpha = ["\x01", "\x01", " ", " ", "\\", "a", "A", "\t", "\xa0", "PING", "ACTION", "x y", "\\a", "\\\\", "é", "\n"]
+        return {"op": "extract", "t": "".join(rng.choice(alpha) for _ in range(rng.randint(0, 12)))}
+    if r < 0.72:
+        ms = _ctcp_msgs(rng, atleast=1)
+        if rng.random() < 0.8 and _valid_tags(_msgs({"msgs": ms})):
+            return {"op": "recv", "kind": rng.choice("pn"), "t": _ref_stringify(_msgs({"msgs": ms})), "msgs": ms}
+        alpha = ["\x01", "\x01", " ", "\\", "a", "ACTION", "x", "\t", "\xa0", "\x10", "\x00", "\n", "\r", " :", "é"]
+        t = "".join(rng.choice(alpha) for _ in range(rng.randint(1, 10)))
+        return {"op": "recv", "kind": rng.choice("pn"), "t": t}
+    safe = rng.random() < 0.75
+    ms = _ctcp_msgs(rng, safe)
+    if rng.random() < 0.04:
+        ms.append(["ACTION", "long " * rng.choice([60, 100]) + "tail"])
+    return {"op": "e2e", "kind": rng.choice("qqr"), "user": rng.choice(E2E_USERS), "msgs": ms}
 
 
 def _message(rng):
@@ -357,8 +703,11 @@ def corpus():
 
 
 def generate(rng, tier):
-    n = 4000 if tier == "quick" else 60000
+    n = 5800 if tier == "quick" else 86000
     for i in range(n):
+        if rng.random() < 0.31:
+            yield _ctcp_case(rng)
+            continue
         r = rng.random()
         if r < 0.62:
             kind = rng.choice(["msg", "notice"])
@@ -390,10 +739,48 @@ def search(rng, tier, disagreeing):
             for reps in (1, 3, 9, 40):
                 for extra in range(-1, 12):
                     yield {"op": "send", "kind": "msg", "user": user, "message": unit * reps, "length": base + extra}
+    # every whitespace character at the head / as the whole / at the tail of a CTCP data text, each path
+    for ws in WS_ALL:
+        for d in (ws + "x", ws, "x" + ws, ws + ws + "x y"):
+            yield {"op": "strex", "msgs": [["ACTION", d]]}
+            yield {"op": "recv", "kind": "p", "t": _ref_stringify([("ACTION", d)]), "msgs": [["ACTION", d]]}
+            yield {"op": "e2e", "kind": "q", "user": "bob", "msgs": [["ACTION", d]]}
     yield from generate(rng, "quick")
 
 
 def shrink(c):
+    if "msgs" in c:
+        ms = c["msgs"]
+        for i in range(len(ms)):
+            if c["op"] == "mixed":
+                ns = c["normals"]
+                yield dict(c, msgs=ms[:i] + ms[i + 1:], normals=ns[:i] + [ns[i] + ns[i + 1]] + ns[i + 2:])
+            elif c["op"] != "recv":
+                yield dict(c, msgs=ms[:i] + ms[i + 1:])
+        for i, (tg, d) in enumerate(ms):
+            cands = []
+            if isinstance(d, str):
+                if len(d) > 3:
+                    cands += [[tg, d[:len(d) // 2]], [tg, d[len(d) // 2:]], [tg, d[:1] + d[-1:]]]
+                cands += [[tg, d[:j] + d[j + 1:]] for j in range(len(d))]
+            elif d is not None:
+                cands += [[tg, " ".join(d)]] + [[tg, d[:j] + d[j + 1:]] for j in range(len(d))]
+            if tg != "ACTION":
+                cands.append(["ACTION", d])
+            for m in cands:
+                c2 = dict(c, msgs=ms[:i] + [m] + ms[i + 1:])
+                if c["op"] == "recv":
+                    if not _valid_tags(_msgs(c2)):
+                        continue
+                    c2["t"] = _ref_stringify(_msgs(c2))
+                yield c2
+        if c["op"] == "mixed":
+            for i, n in enumerate(c["normals"]):
+                if n:
+                    yield dict(c, normals=c["normals"][:i] + [""] + c["normals"][i + 1:])
+        if c.get("user", "bob") != "bob":
+            yield dict(c, user="bob")
+        return
     if c["op"] == "send":
         m = c["message"]
         for i in range(len(m)):
@@ -457,4 +844,20 @@ def tag(c, out):
         return f"isspace:{c['lo']}"
     if op == "octets":
         return f"octets:{_classes(c['text'])}:{c['maximum']}:{'raise' if out.startswith('!') else min(out.count(';'), 5)}"
+    if "msgs" in c:
+        ms = _msgs(c)
+        kinds = "".join(sorted({"n" if d is None else "e" if d == "" else "t" if isinstance(d, str) else "l" for _, d in ms}))
+        alltext = "".join(tg + (d or "") for tg, d in _expected(ms)) + "".join(c.get("normals", []))
+        esc = ("d" if "\x01" in alltext else "") + ("q" if "\\" in alltext else "")
+        extra = ""
+        if op == "e2e":
+            extra = ":" + c["kind"] + (":raise" if out.startswith("!") else ":%d" % min(out.split("|")[0].count(";") + (out[0] != "~"), 3))
+            extra += ":" + out.split("|")[-1][:1]
+        elif op == "recv":
+            extra = ":" + c["kind"]
+        return f"{op}:{min(len(ms), 3)}:{kinds}:{_lead(ms)}:{esc}:{_classes(alltext)}:{'v' if _valid_tags(ms) else 'i'}{extra}"
+    if op == "recv":
+        return f"recv:{c['kind']}:{_classes(c['t'])}:{min(c['t'].count(chr(1)), 4)}:{out[:1]}"
+    if op == "extract":
+        return f"extract:{_classes(c['t'])}:{min(c['t'].count(chr(1)), 4)}:{min(out.count(';'), 3)}"
     return f"{op}:{_classes(c['t'])}:{min(len(c['t']), 6)}"
